@@ -1,5 +1,5 @@
 CONSTANTS
- NPal = 14
+ NPal = 16
  MaxLen = 2
  CoefIdx = {2, 4, 6}
 SPECIFICATION Spec
